@@ -36,7 +36,12 @@ func init() {
 			cfg := kmodel.AllConfigs[idx%len(kmodel.AllConfigs)]
 			w := map[string]int{"create": 10, "update": 4, "patch": 4, "delete": 8, "deletewhere": 2, "addlinks": 4, "setlinks": 3, "removelinks": 1, "rcinc": 4, "rcdec": 1, "rcset": 1}
 			var pre *kmodel.Model
-			runHistory(c, r, histOpts{Prefix: "C06", FanIn: true, Cfg: cfg, NTx: 45, MaxOps: 3, Hostile: true, Weights: w, NeedDump: true,
+			var setup func(e *kmodel.Engine)
+			if idx%3 == 2 {
+				setup = sharedIds
+				c.Cover("id_universe", "shared-between-stores")
+			}
+			runHistory(c, r, histOpts{Prefix: "C06", FanIn: true, Cfg: cfg, NTx: 45, MaxOps: 3, Hostile: true, Weights: w, NeedDump: true, Setup: setup,
 				AfterTx: func(e *kmodel.Engine, res *kmodel.TxResult, before, after *dump.Dump) {
 					defer func() { pre = e.M.Clone() }()
 					if !res.Committed || after == nil {
@@ -61,6 +66,18 @@ func init() {
 								continue
 							}
 							// re-created in the same transaction? then it legitimately exists
+							// with shared id universes the same string may name a live entity of the other store: its own
+							// bucket and the references to it are not traces (the structural monitor still judges them)
+							other := kmodel.Depts
+							if t == kmodel.Depts {
+								other = kmodel.Emps
+							}
+							_, liveOther := e.M.Ents[other][id]
+							_, wasOther := pre.Ents[other][id]
+							if liveOther || wasOther {
+								c.Count("scan_skipped_same_id_in_other_store", 1)
+								continue
+							}
 							c.Eval()
 							c.Count("deletes_scanned", 1)
 							hits := after.FindId(id)
